@@ -454,6 +454,22 @@ func genAccount(t *rapid.T, prop string, kind string) Account {
 	return a
 }
 
+// genReconfig: the operator changes the verifier's window for one account
+// while the history goes on (N = new window). For HOTP the verifier process may
+// in addition have died after its last answer and before it stored the
+// advanced counter (Who = 1: on restart it is back at the counter of that
+// answer), and the token's owner may submit the latest code once more at once
+// (Aimed). Together these repeat an earlier validation call with only the
+// window changed - narrower or wider.
+func genReconfig(t *rapid.T, e *Event, hotp bool) {
+	e.Kind = "reconfig"
+	e.N = int(genSkew(t, weighted(t, "reconfBad?", 12, 1) == 1) & 0xfffff)
+	if hotp {
+		e.Who = weighted(t, "verLostUpdate?", 1, 2)
+	}
+	e.Aimed = weighted(t, "retryNow?", 1, 3) == 1
+}
+
 func genEvent(t *rapid.T, prop string, accts []Account) Event {
 	var e Event
 	e.Acct = rapid.IntRange(0, len(accts)-1).Draw(t, "acct")
@@ -507,7 +523,7 @@ func genEvent(t *rapid.T, prop string, accts []Account) Event {
 	}
 	switch a.Kind {
 	case "hotp":
-		switch weighted(t, "hotpEv", 10, 2, 1, 1, 1) {
+		switch weighted(t, "hotpEv", 10, 2, 1, 1, 1, 2) {
 		case 0:
 			e.Kind = "press"
 			aim()
@@ -521,14 +537,16 @@ func genEvent(t *rapid.T, prop string, accts []Account) Event {
 			e.Kind = "replay"
 			e.N = rapid.IntRange(0, 30).Draw(t, "replayIdx")
 			e.Net = genNet(t, unit, false)
+		case 5:
+			genReconfig(t, &e, true)
 		default:
 			e.Kind = "arbitrary"
 			e.Str = genArbitrary(t)
 		}
 	case "totp":
-		evW := []int{10, 2, 1, 1, 0}
+		evW := []int{10, 2, 1, 1, 0, 2}
 		if prop == "C02" {
-			evW = []int{2, 2, 0, 0, 10}
+			evW = []int{2, 2, 0, 0, 10, 0}
 		}
 		switch weighted(t, "totpEv", evW...) {
 		case 0:
@@ -550,6 +568,8 @@ func genEvent(t *rapid.T, prop string, accts []Account) Event {
 		case 3:
 			e.Kind = "arbitrary"
 			e.Str = genArbitrary(t)
+		case 5:
+			genReconfig(t, &e, false)
 		default:
 			e.Kind = "display"
 			aim()
